@@ -107,7 +107,7 @@ pub fn check_a(case: &CaseA) -> Result<Option<ObsA>, (String, String)> {
         Ok(p) => p,
         Err(_) => return Ok(None),
     };
-    let plain = vm::run(&program, &RunCfg { step_budget: 300_000, ..Default::default() });
+    let plain = vm::run(&program, &RunCfg { step_budget: 1_500_000, ..Default::default() });
     if plain.end == RunEnd::Budget {
         return Ok(None);
     }
@@ -260,7 +260,7 @@ pub fn check_b(case: &CaseB) -> Result<Option<ObsB>, (String, String)> {
     let source = match case.spec.source() { Some(s) => s, None => return Ok(None) };
     // the in-process history of the same program is the reference for the record sequence
     let program = match case.spec.build() { Ok(p) => p, Err(_) => return Ok(None) };
-    let inproc = vm::run(&program, &RunCfg { step_budget: 200_000, ..Default::default() });
+    let inproc = vm::run(&program, &RunCfg { step_budget: 1_500_000, ..Default::default() });
     if inproc.end == RunEnd::Budget { return Ok(None); }
     let dir = scratch_dir();
     std::fs::write(dir.join("x.fml"), &source).unwrap();
@@ -422,6 +422,9 @@ pub fn run(seed: u64, tier: &str, ev: &mut Evidence) -> Vec<Violation> {
     if let Some(v) = std::env::var("VERIF_DEBUG_C16_NB").ok().and_then(|s| s.parse().ok()) { n_b = v; }
     // ---- (A) -----------------------------------------------------------------------------------
     let mut specs: Vec<(ProgSpec, Option<u64>)> = work::corpus_specs().into_iter().filter(|(_, s)| s.source().is_some()).map(|(_, s)| (s, None)).collect();
+    for (_, src) in work::scale_templates() {
+        specs.push((ProgSpec::Source(src), None));
+    }
     for j in 0..n_a {
         let mut rng = Rng::for_case(seed, "C16", "workload", j as u64);
         let cfg = allocating_cfg(&mut rng);
@@ -537,10 +540,12 @@ pub fn run(seed: u64, tier: &str, ev: &mut Evidence) -> Vec<Violation> {
         Some("4102444800000000000:7;2:900000000000000000"),
         Some("1000000000:1;1:-999999999999"),
     ];
+    let scale = work::scale_templates();
     let outs_b: Vec<(u64, Option<ObsB>, Option<(CaseB, String, String)>, CaseB)> = par_map(n_b, |i| {
         let mut rng = Rng::for_case(seed, "C16", ENGINE_B, i as u64);
         let cfg = allocating_cfg(&mut rng);
         let (mut spec, _) = work::gen_source_spec(&mut rng, &cfg);
+        if i < scale.len() { spec = ProgSpec::Source(scale[i].1.clone()); }
         if i % 3 == 1 {
             if let ProgSpec::Stmts(v) = &mut spec {
                 let at = rng.usize_below(v.len() + 1);
